@@ -251,7 +251,35 @@ class Engine:
                 c = self.class_by_name(nm)
                 mod = inspect.getmodule(c) if c is not None else None
                 return nm, self.parse_type(sch[field], mod)
+        # no sidecar schema: fall back to the annotation the real class itself declares (`self.f: T = ...` in a
+        # method, or a class-level `f: T`), read from the source on every run
+        for c in (cls.__mro__ if cls is not None else ()):
+            ann = self._auto_schema(c)
+            if field in ann:
+                try:
+                    return c.__name__, self.parse_type(ann[field], inspect.getmodule(c))
+                except Unsupported:
+                    return None, None
         return None, None
+
+    def _auto_schema(self, c):
+        cache = self.__dict__.setdefault("_auto_schemas", {})
+        if c in cache:
+            return cache[c]
+        out = {}
+        cache[c] = out
+        try:
+            fi = self.fe.class_ast(c)
+        except Exception:
+            fi = None
+        if fi is None:
+            return out
+        import ast as _ast
+        for n in _ast.walk(fi):
+            if isinstance(n, _ast.AnnAssign) and isinstance(n.target, _ast.Attribute) and isinstance(n.target.value, _ast.Name) \
+                    and n.target.value.id == "self":
+                out.setdefault(n.target.attr, _ast.unparse(n.annotation))
+        return out
 
     # ---------------------------------------------------------------------------------------
     # heap
